@@ -248,7 +248,14 @@ def shape(ctx, expr, args=None, ret=None, hoistable=True, byref=False, turbofish
             and ctx.cur_step != STEP_HANDLER and ctx.no_caps == 0):
         # (no_caps > 0: inside a non-move wrapper closure that must be 'static — a borrowed local is as illegal there as a capture)
         shapes.append((10 * ctx.p.get('kwvars', 0.02), 'kwvar'))
+    if ctx.p.get('mk', 0.08) > 0:
+        shapes.append((10 * ctx.p.get('mk', 0.08), 'mk'))
     s = ctx.pick_w(shapes)
+    if s == 'mk':
+        # the evaluation of the (non-block) operand EXPRESSION itself is an event: exactly once, where the documented method
+        # call evaluates its argument
+        e = ctx.ev('Mk', False)
+        return Operand('w::mk(%d, %s)' % (e, expr))
     if s == 'kwvar':
         # the operand is a plain identifier spelled like a handler keyword (`|> map => ..` must still be map + and_then)
         name = [n for n in ('map', 'then', 'and_then') if n not in [k[0] for k in ctx.kwvars]][0]
@@ -1033,12 +1040,23 @@ def gen_branch(ctx, inv, index, depth, acts_per_step, same_type=None):
     init = None
     if same_type is None and ctx.nest_budget > 0 and ctx.chance(ctx.p.get('nest', 0.0)):
         ks = nested_kinds_for(ctx, False, 'init')
+        # the nested macro may be the TAIL expression of a block capture: `{ w::cap(e); join! { .. } }` (evaluated by the caller,
+        # before the step, like every block)
+        in_block = (not ctx.in_capture and ctx.no_caps == 0 and ctx.multi_call == 0 and ctx.chance(ctx.p.get('nest_init_block', 0.3)))
+        if in_block:
+            ctx.cur_branch = CALLER
         got = gen_nested(ctx, ks) if ks else None
         if got is not None:
             ninv, nkind, nty = got
             ctx.cur_inv, ctx.cur_branch, ctx.cur_step = inv.inv, index, 0
             init = Operand(macro_expr(ninv, nkind), ref_expr=ninv)
+            if in_block:
+                saved_nc = ctx.p.get('nest_cap', 0.0)
+                ctx.p = dict(ctx.p, nest_cap=0.0)
+                init.cap = new_cap(ctx)
+                ctx.p = dict(ctx.p, nest_cap=saved_nc)
             t0 = nty
+        ctx.cur_inv, ctx.cur_branch, ctx.cur_step = inv.inv, index, 0
     if init is None:
         init = initial_operand(ctx, inv, t0)
     cur = t0
@@ -1832,18 +1850,20 @@ OPT_VARIANTS = {
 }
 
 
-def gen_opts(pid, family, variant, kinds, seed, fut='::futures'):
+def gen_opts(pid, family, variant, kinds, seed, fut='::futures', over=None):
     for attempt in range(60):
         rng = random.Random(subseed(seed, attempt))
         prof = dict(PROFILES['pos'])
         prof.update(branches=(2, 5), handler=0.3, names=0.15, captures=0.15)
+        if over:
+            prof.update(over)
         if variant == 'try_notranspose':
             # equal depths only: a branch that finished earlier would be handed to the final transposer unwrapped
             prof['depth_profile'] = lambda r, nb: [r.choice([1, 1, 2, 3])] * nb
             prof['notranspose'] = True
             prof['names'] = 0.0
             prof['ops'] = dict(prof.get('ops', {}), then=2.0)
-        else:
+        elif not (over and 'depth_profile' in over):
             prof['depth_profile'] = lambda r, nb: [r.randint(1, 3) for _ in range(nb)]
         ctx = Ctx(rng, prof)
         try:
@@ -2000,6 +2020,14 @@ def slice_programs(slice_name, tier, master_seed, base_id):
                         pr.top.options = ('futures_crate_path(::fut03) ' + pr.top.options).strip()
                     progs.append(pr)
                     i += 1
+            # long chains (eight to twelve actions in one step) and many steps, every futures item still from the given path
+            for r, over in enumerate([dict(acts=(8, 12), depth_profile=(lambda rr, nb: [1] * nb)), dict(acts=(8, 12), depth_profile=(lambda rr, nb: [2] * nb)),
+                                      dict(acts=(1, 2), depth_profile=(lambda rr, nb: [rr.randint(5, 9) for _ in range(nb)]))]):
+                pr = gen_opts(base_id + i, fam, 'fcp', None, subseed(master_seed, 'optsf-long', fam, r), fut='::fut03', over=over)
+                if 'futures_crate_path' not in pr.top.options:
+                    pr.top.options = ('futures_crate_path(::fut03) ' + pr.top.options).strip()
+                progs.append(pr)
+                i += 1
         return progs
     if slice_name == 'opts':
         reps = 3 if tier == 'quick' else 24
@@ -2093,6 +2121,27 @@ def slice_programs(slice_name, tier, master_seed, base_id):
                             j = text.find('>>>', j + 1)
                         return False
                     add(p, fam, 'sk-noise-%s-%s' % (op, inside), require=req)
+    if slice_name == 'ops':
+        # the evaluation of a non-block operand EXPRESSION is observed (`w::mk`), each operand-taking operator emphasised once
+        for fam in fams:
+            for op, pat in [('map', '|> w::mk('), ('and_then', '=> w::mk('), ('filter', '?> w::mk('), ('then', '-> w::mk('), ('or_else', '<= w::mk('),
+                            ('map_err', '!> w::mk('), ('filter_map', '?|> w::mk('), ('find_map', '?|>@ w::mk('), ('inspect', '?? w::mk('), ('fold', ', w::mk(')]:
+                p = dict(prof)
+                p['ops'] = {o: (8.0 if o == op else 0.5) for o in OP_NAMES}
+                p['mk'] = 0.8
+                p['captures'] = 0.0
+                p['closures'] = 0.0
+                p['turbofish'] = 0.0
+                p['wrappers'] = 0.1
+                if fam[0] == 'async':
+                    p['streams'] = max(p.get('streams', 0.0), 0.6)
+                add(p, fam, 'sk-mk-' + op, require=pat)
+                if op in ('filter', 'map', 'filter_map', 'inspect'):
+                    # ... on a receiver with SEVERAL items (iterator / stream): an operand expression moved into the per-item
+                    # closure is then evaluated once per item
+                    import re as _re6
+                    rx = _re6.compile(r'(into_iter\(\)|sinit::<[^(]*>\(\d+\)) %s' % _re6.escape(pat))
+                    add(p, fam, 'sk-mk-multi-' + op, require=(lambda text, rx=rx: rx.search(text) is not None))
     if slice_name == 'ops':
         # an operand that is a plain identifier spelled like a handler keyword, directly followed by `=>` / `=>[]`
         import re as _re4
@@ -2254,6 +2303,12 @@ def slice_programs(slice_name, tier, master_seed, base_id):
                     p['captures'] = 0.6 if posn == 'cap' else prof['captures']
                     p['nest_depth'] = 2
                     add(p, fam, 'sk-%s-%s' % (k, posn))
+                    if posn == 'init' and not outer_async:
+                        # ... and as the tail expression of a block capture
+                        import re as _re5
+                        p2 = dict(p)
+                        p2['nest_init_block'] = 1.0
+                        add(p2, fam, 'sk-%s-initblock' % k, require=(lambda text, k=k: _re5.search(r'\{ w::cap\(\d+\); %s! \{' % k, text) is not None))
     if slice_name == 'pos':
         import itertools
         maxn, maxd = (3, 3) if tier == 'quick' else (5, 4)
